@@ -65,6 +65,33 @@ def judge_larch(ctx, stream, seqs):
             (ctx.drift if s == "NA" else ctx.broken).append(rec)
 
 
+def _after_errors(ops):
+    from ..layers_common import larch_after_errors
+
+    rejected, final = larch_after_errors(ops)
+    kept = [op for i, op in enumerate(ops) if i not in rejected]
+    rejected2, final2 = larch_after_errors(kept)
+    return rejected, final, rejected2, final2
+
+
+def rejected_calls_have_no_effect(ctx, stream, seqs):
+    """the builder object is used on after a call was rejected (the caller catches the configuration error): the definition must
+    be what the accepted calls alone produce, and those calls alone must all be accepted"""
+    res = pmap(_after_errors, seqs, ctx.jobs, chunk=2000)
+    for ops, (rejected, final, rejected2, final2) in zip(seqs, res):
+        stream.evaluations += 1
+        stream.count("rejected calls:" + str(min(len(rejected), 3)))
+        if rejected:
+            stream.nontrivial.add(digest(ops))
+        if rejected2 or final != final2:
+            ctx.violations.append({"kind": "property-violation",
+                                   "what": "a rejected builder call is not without effect: continuing with the same LayeredArchitecture object differs from making the accepted calls alone",
+                                   "calls": [list(o) for o in ops], "rejected_calls": rejected, "definition_after_all_calls": final,
+                                   "accepted_calls_alone": {"rejected": rejected2, "definition": final2}})
+            if len(ctx.violations) >= 3:
+                return
+
+
 # ------------------------------------------------------------------------------------------- LayerRule histories
 ARCH = [("L1", "N", ["p.a"]), ("L2", "N", ["p.b"]), ("L3", "R", r"p\.c.*")]
 NODES = ["p", "p.a", "p.b", "p.c", "p.c.x"]
@@ -199,5 +226,10 @@ def run(ctx: Ctx):
         seqs.append(seq)
     judge_larch(ctx, s, seqs)
     s.finish()
+    if not ctx.violations:
+        s = Stream(ctx, "LayeredArchitecture: the same builder object used on after rejected calls vs the accepted calls alone")
+        short = [list(t) for n in range(2, 5) for t in itertools.product(LVOCAB, repeat=n)]
+        rejected_calls_have_no_effect(ctx, s, short + seqs)
+        s.finish()
     layer_rule_histories(ctx, 4 if quick else 5)
     return RULE
